@@ -1,4 +1,5 @@
 import MgpuModel.C11
+import MgpuProofs.C11Flush
 import MgpuProofs.C11Copy
 import MgpuProofs.C11DmaStep
 import MgpuProofs.C11DmaTie
@@ -402,5 +403,27 @@ def demoDrv : DrvSt :=
 
 example : envSummary (dmaOp demoDrv ["t"]).env = ([], [], [0, 1, 2], [0], 3, 1, 0) := by decide +kernel
 example : envSummary (demoDrv.env.step .tick) = ([], [], [0, 1, 2], [0], 3, 1, 0) := by decide +kernel
+
+/-- **A device-to-host (or host-to-device) copy observes every write of kernels launched
+    before it**: in every driver history, once a kernel has been launched while a buffer existed,
+    every later non-empty copy that lies inside that buffer is preceded by a cache flush to all
+    GPUs — whatever other allocations, launches, completions and copies happen in between (dirty
+    flags are never cleared, and the flush test detects every contained copy). -/
+theorem d2h_sees_kernel_writes (pre mid : List FOp) (s z a l : Nat)
+    (halloc : ∃ b ∈ (frun [] pre).1, b.start = s ∧ b.size = z)
+    (hl : 0 < l) (hs : s ≤ a) (he : a + l ≤ s + z) :
+    (fstep (frun [] (pre ++ [.launch] ++ mid)).1 (.copy a l)).2 = some true := by
+  have hd : DirtyIn (frun [] (pre ++ [.launch] ++ mid)).1 s z := by
+    rw [frun_bufs, List.foldl_append, List.foldl_append]
+    apply foldl_keeps_dirty
+    simp only [List.foldl]
+    rw [← frun_bufs]
+    exact launch_makes_dirty _ s z halloc
+  simp only [fstep]
+  rw [needFlushing_of_dirty_contained _ s z a l hd hl hs he]
+
+/-- non-vacuity: two buffers, a launch, an unrelated copy and a completion in between -/
+example : (frun [] [.alloc 0x1000 4096, .alloc 0x2000 8192, .launch, .copy 0x1000 16, .complete,
+    .alloc 0x4000 4096, .copy 0x2100 100, .copy 0x4000 8]).2 = [true, true, false] := by decide
 
 end C11
